@@ -7,7 +7,8 @@
    of C08 are about -- for every heap and every problem whose literals are in range.  Final statements only; the
    proofs are in Proofs/GoSrcXUp.v. *)
 From Coq Require Import List ZArith Bool String.
-From GS Require Import Spec.Base Model.Rup Proofs.Rup Model.GoIR2 Gen.GoSrcX Judge.J26 Proofs.GoSrcXUp.
+From GS Require Import Spec.Base Model.Rup Proofs.Rup Model.GoIR2 Gen.GoSrcX Judge.J26 Proofs.GoSrcXUp
+  Proofs.GoSrcXUpArgs.
 Import ListNotations.
 Open Scope string_scope.
 Open Scope Z_scope.
@@ -73,6 +74,30 @@ Theorem C08g_true_sound : forall h fs css nbs us ts F nb u t fuel h',
   ~ Satisfiable (length u) F.
 Proof. exact Problem_unsat_true_sound. Qed.
 Print Assumptions C08g_true_sound.
+
+(* ---- on the arguments the judge J26 builds ([problem_arg], each slice in a fresh array): for every problem in range,
+   once the fuel suffices [run_args] on the regenerated syntax tree answers what the model answers -- the verdict, the
+   clauses untouched, the final units and tags ([pa_answer]).  J26 compares this very [run_args] with the compiled
+   function on every case. *)
+Theorem C08g_run_args : forall F nb u t,
+  range_okb (length u) F = true -> (Z.to_nat nb <= length t)%nat ->
+  exists fuel0 b t' u',
+    up_unsat_full (S (length F)) (Z.to_nat nb) F u t = ((Some b, t'), u') /\
+    forall fuel, (fuel0 <= fuel)%nat ->
+      run_args go_funs fuel "Problem.unsat" [problem_arg F nb u t] =
+      RRet (RBool b) [RStruct [RList (map RSl F); RNil; RSl [nb]; RSl u'; RNil; RSl (map b2z t')]].
+Proof. exact run_args_unsat. Qed.
+Print Assumptions C08g_run_args.
+
+(* with any fuel: out of fuel, or the answer of the model *)
+Theorem C08g_run_args_any_fuel : forall F nb u t fuel b t' u',
+  range_okb (length u) F = true -> (Z.to_nat nb <= length t)%nat ->
+  up_unsat_full (S (length F)) (Z.to_nat nb) F u t = ((Some b, t'), u') ->
+  run_args go_funs fuel "Problem.unsat" [problem_arg F nb u t] = RFuel \/
+  run_args go_funs fuel "Problem.unsat" [problem_arg F nb u t] =
+    RRet (RBool b) [RStruct [RList (map RSl F); RNil; RSl [nb]; RSl u'; RNil; RSl (map b2z t')]].
+Proof. exact run_args_unsat_any_fuel. Qed.
+Print Assumptions C08g_run_args_any_fuel.
 
 (* ---- the hypotheses are satisfiable: a concrete heap *)
 Example C08g_ex_repr :
